@@ -4,7 +4,7 @@ import Arimaa.Lemmas.RsAgreeBoard
 Agreement of the regenerated model with the hand model: `trapped_animal_for_action`.
 -/
 namespace Arimaa.RsAgree
-open Arimaa Arimaa.Gen Arimaa.Gen.Rs Arimaa.Rt
+open Arimaa Arimaa.Gen Arimaa.Gen.RsBase Arimaa.Rt
 
 theorem trapped_animal_for_action_eq (s : GameState) (a : Action) :
     GameState_trapped_animal_for_action s a =
